@@ -740,7 +740,7 @@ struct NullIf;
 
 impl Callable for NullIf {
     fn call(args: Vec<DataType>) -> EvaluationResult<DataType> {
-        if args.len() != 1 || !matches!(args[1], DataType::Bool(_)) {
+        if args.len() != 2 || !matches!(args[1], DataType::Bool(_)) {
             return Err(EvaluationError::InvalidArguments(ScalarFunction::NullIf));
         };
 
